@@ -314,6 +314,10 @@ static int _GD_Move(DIRFILE *D, gd_entry_t *E, int new_fragment, unsigned flags)
   if ((D->flags & GD_ACCMODE) == GD_RDONLY)
     GD_SET_RETURN_ERROR(D, GD_E_ACCMODE, 0, NULL, 0, NULL);
 
+  /* a metafield lives where its parent lives: it cannot be moved by itself */
+  if (E->e->n_meta == -1)
+    GD_SET_RETURN_ERROR(D, GD_E_BAD_CODE, GD_E_CODE_INVALID, NULL, 0, E->field);
+
   /* check metadata protection */
   if (D->fragment[E->fragment_index].protection & GD_PROTECT_FORMAT ||
       D->fragment[new_fragment].protection & GD_PROTECT_FORMAT)
